@@ -554,3 +554,37 @@ def rule_bulk_paths_keep_token_grammar(ctx, rep, rid: str) -> None:
                     rep.bad(rid, key, f"{f.qual} returns the source slice `{short(r.value, 40)}` as the token without excluding {ch!r} from it, while its character loop refuses that character (line {ln}): a literal that is not closed on its line is accepted whenever the same delimiter occurs later in the file (in a comment, in the next literal), and the text in between is run with another meaning", f"{f.module.rel}:{r.lineno}")
     if n_fn == 0:
         raise AnalysisError(f"{rid}: no lexer loop that refuses a character inside a token was found")
+
+
+# ---- no unary operator directly in front of ** -------------------------------------------------------------------
+def rule_unary_before_exponent_rejected(ctx, rep, rid: str) -> None:
+    """ECMAScript's grammar has UpdateExpression ** ExponentiationExpression: `-2 ** 2` is a SyntaxError (neither
+    (-2) ** 2 nor -(2 ** 2)).  A recursive-descent parser that parses the operand of a prefix operator and returns
+    accepts it as (-2) ** 2 unless it looks at the next token."""
+    rep.rule(rid, "the parser refuses a prefix operator (- + ! ~ typeof void delete) whose operand is directly followed by **: somewhere between building the unary node and consuming the ** operator a syntax error is raised under a test for that token (in the unary branch), or under a test that the left operand of ** is an unparenthesised unary expression", floor=1)
+    par = ctx.tree.mod("parser")
+    found = []
+    for f in ctx.tree.funcs:
+        if f.module is not par or isinstance(f.node, ast.Lambda):
+            continue
+        for i in f.own_nodes():
+            if not (isinstance(i, ast.If) and any(isinstance(x, ast.Raise) for b in i.body for x in ast.walk(b))):
+                continue
+            t = norm(i.test)
+            mentions_pow = "STARSTAR" in t or "'**'" in t or '"**"' in t
+            if not mentions_pow:
+                # `if op == "**"` one level up
+                from ..util import guards_of
+
+                mentions_pow = any(pol and ("STARSTAR" in norm(g) or "'**'" in norm(g)) for g, pol in guards_of(i, f.node))
+                if not (mentions_pow and "UnaryExpression" in t):
+                    continue
+            builds_unary = any(isinstance(c, ast.Call) and isinstance(c.func, ast.Name) and c.func.id == "UnaryExpression" for c in f.own_nodes())
+            if builds_unary or "UnaryExpression" in t:
+                found.append((f, i))
+    if found:
+        f, i = found[0]
+        rep.ok(rid, "unary-before-exponent", {"refused_in": f.qual, "line": i.lineno})
+    else:
+        u = next((f for f in ctx.tree.funcs if f.module is par and "unary" in f.name.lower()), None)
+        rep.bad(rid, "unary-before-exponent", "the parser builds a unary expression and goes on to consume ** without a test for that combination: `-2 ** 2` is accepted (as (-2) ** 2) where ECMAScript demands parentheses", u.loc if u is not None else f"{par.rel}:1")
